@@ -1,7 +1,7 @@
 (* C11 -- navigation always rests on a node of the current expression.  Statements only.
    Quantified over every expression (id list + root id), every command string, every behaviour of the navigation
    rules within [out_ok] (they name a node of the expression or the "not set" id), every state. *)
-From MC Require Import Lib.Base Model.Nav Proofs.NavP.
+From MC Require Import Lib.Base Model.Nav Proofs.NavP Model.KeyMap Proofs.KeyMapP.
 From Coq Require Import String.
 Local Close Scope string_scope.
 Local Open Scope N_scope.
@@ -73,3 +73,18 @@ Theorem silent_first_try_completes :
   snd (nav_command [S "r"%string] (S "r"%string) (S "MoveLastLocation"%string) silent_then_done init_state) = Done.
 Proof. exact L_silent_first_try_completes. Qed.
 Print Assumptions silent_first_try_completes.
+
+(* the key table of the documentation (Model/KeyMap.v; tied cell by cell to do_navigate_keypress by Tie/KeyMapTie.v): no key
+   combination is documented twice, and a digit jumps to the marker that Ctrl + the same digit sets while Shift and Ctrl+Shift
+   only read and describe it *)
+Theorem no_key_combination_is_documented_twice : NoDup (map cell_key documented).
+Proof. exact L_no_cell_documented_twice. Qed.
+Print Assumptions no_key_combination_is_documented_twice.
+
+Theorem digit_keys_are_the_place_marker_row : forall d, (d < 10)%N ->
+  decode documented (48 + d) false false = Some (S "MoveTo" ++ [48 + d])%list /\
+  decode documented (48 + d) true false = Some (S "SetPlacemarker" ++ [48 + d])%list /\
+  decode documented (48 + d) false true = Some (S "Read" ++ [48 + d])%list /\
+  decode documented (48 + d) true true = Some (S "Describe" ++ [48 + d])%list.
+Proof. exact L_digit_row. Qed.
+Print Assumptions digit_keys_are_the_place_marker_row.
